@@ -79,6 +79,7 @@ type Run struct {
 
 type PlayOpt struct {
 	PanicAt   int // -1: none
+	PanicNil  bool
 	Fuel      int
 	Rng       *prng.R // thread scheduler choices (nil with Replay nil: run threads sequentially in order)
 	Replay    []int
@@ -114,6 +115,7 @@ func mkIters(sc *Scenario, impl Impl) []genIface {
 func Play(sc *Scenario, impl Impl, o PlayOpt) (res Run) {
 	ctx := vrt.NewCtx()
 	ctx.PanicAt = o.PanicAt
+	ctx.PanicNil = o.PanicNil
 	ctx.Fuel = o.Fuel
 	ctx.DepthOn = o.DepthOn
 	ctx.DepthEach = o.DepthEach
@@ -163,8 +165,9 @@ func Play(sc *Scenario, impl Impl, o PlayOpt) (res Run) {
 		}
 		ctx.Hist = append(ctx.Hist, inv)
 		func() {
+			returned := false // a panic whose value is nil is invisible to 'recover() != nil'
 			defer func() {
-				if p := recover(); p != nil {
+				if p := recover(); p != nil || !returned {
 					if _, ok := p.(vrt.OutOfFuel); ok {
 						fuelOut = true
 						return
@@ -201,6 +204,7 @@ func Play(sc *Scenario, impl Impl, o PlayOpt) (res Run) {
 			}
 			ctx.Th, ctx.H = th, op.H
 			ctx.Hist = append(ctx.Hist, ret)
+			returned = true
 		}()
 		ctx.H = -1
 	}
